@@ -221,6 +221,51 @@ func init() {
 		})
 	}
 
+	// ---- fmt.Sscanf on concrete input with *int / *string targets ----
+	externals["fmt.Sscanf"] = func(fr *frame, args []value) value {
+		x := fr.i.x
+		str, ok1 := args[0].(string)
+		format, ok2 := args[1].(string)
+		if !ok1 || !ok2 {
+			x.abandon("fmt.Sscanf on a symbolic string")
+		}
+		targets, _ := args[2].([]value)
+		goArgs := make([]interface{}, len(targets))
+		for i, t := range targets {
+			itf := t.(iface)
+			pt, ok := itf.t.Underlying().(*types.Pointer)
+			if !ok {
+				x.abandon("fmt.Sscanf target is not a pointer")
+			}
+			switch basicKind(pt.Elem()) {
+			case types.Int:
+				goArgs[i] = new(int)
+			case types.String:
+				goArgs[i] = new(string)
+			default:
+				x.abandon("fmt.Sscanf target type " + pt.Elem().String())
+			}
+		}
+		n, err := fmt.Sscanf(str, format, goArgs...)
+		for i, t := range targets {
+			p := t.(iface).v.(*value)
+			if i >= n {
+				break
+			}
+			x.onStore(p)
+			switch g := goArgs[i].(type) {
+			case *int:
+				*p = *g
+			case *string:
+				*p = *g
+			}
+		}
+		if err != nil {
+			return tuple{n, fr.i.mkError(err.Error())}
+		}
+		return tuple{n, iface{}}
+	}
+
 	// ---- time ----
 	externals["time.Now"] = func(fr *frame, args []value) value { return native{time.Date(2024, 1, 2, 3, 4, 5, 0, time.UTC)} }
 	externals["(time.Time).Format"] = func(fr *frame, args []value) value {
